@@ -20,7 +20,7 @@ from sketchnu import helpers
 RULE = (
     "Hypothesis-generated cases per class (5 classes): shape chosen so that byte sizes are mostly odd (width*depth*itemsize not a multiple of "
     "8; heavy-hitter key area not a multiple of 4), an owner created with shared_memory=True (by the constructor, or by <Class>.load(file, shared_memory=True)), an ordinary in-memory twin, and up to 2 views "
-    "attached through attach_existing_shm on a fresh object or helpers.attach_shared_memory(type, owner.args, owner.shm.name); a generated "
+    "attached through attach_existing_shm on a fresh object (one in four of them itself created with shared_memory=True: its own block must go when it is dropped, the owner's must stay) or helpers.attach_shared_memory(type, owner.args, owner.shm.name); a generated "
     "sequence of steps (add / update(list|dict) / add_ngram / merge of two handles of the same block into each other (twin: sketch.merge(sketch)) / attach with a first attempt that fails with OSError and is retried / merge of another sketch (ordinary, or itself in shared memory and reached through an attached view, as parallel_merging does) / attach a view / drop a view) each routed to the owner "
     "or to any view and mirrored on the twin (same planted draws for log types); finally the handles are dropped in a generated order (owner "
     "last, or owner first while views still exist). Oracle after every step: owner, every view and the twin agree on tables, n_added/n_records "
@@ -74,6 +74,7 @@ def cases(draw):
         elif k == "attach":
             s["how"] = draw(st.sampled_from(["method", "helper"]))
             s["fail_first"] = draw(st.sampled_from([False, False, False, True]))  # the first attempt fails (e.g. EMFILE); the caller retries
+            s["own_shm"] = draw(st.sampled_from([False, False, False, True]))  # the attaching sketch was itself created with shared_memory=True
         if log:
             s["draws"] = draw(DRAWS)
         steps.append(s)
@@ -99,11 +100,17 @@ class _FailOnce:
         return self.real(*a, **kw)
 
 
-def attach(cfg, owner, how, fail_first=False):
+def attach(cfg, owner, how, fail_first=False, own_names=None):
     kind = cfg["kind"]
-    if how == "helper" and not fail_first:
+    if how == "helper" and not fail_first and own_names is None:
         return sut(helpers.attach_shared_memory, TYPE_OF[kind], dict(owner.args), owner.shm.name)
-    v = sut(make_sketch, cfg)
+    if own_names is not None:
+        # the attaching sketch owns a block of its own (created with shared_memory=True) before it is pointed at the
+        # other owner's block: dropping it later must remove ITS block and leave the other owner's alone
+        v = sut(make_sketch, cfg, True)
+        own_names.append(v.shm.name)
+    else:
+        v = sut(make_sketch, cfg)
     if fail_first:
         from vf.fakectx import RecordingSharedMemory
 
@@ -184,6 +191,7 @@ def run_case(case, real_sleep=False):
         owner = sut(make_sketch, cfg, True)
     name = owner.shm.name
     handles = [owner]  # handles[0] is the owner
+    own_names = []  # blocks created by views that were themselves shared_memory=True sketches
     h = v = other = a_ = b_ = None
     try:
         def check(stage):
@@ -206,8 +214,10 @@ def run_case(case, real_sleep=False):
                 interfere(cfg)
             if op == "attach":
                 if len(handles) < 3:
-                    handles.append(attach(cfg, owner, s["how"], s.get("fail_first", False)))
+                    handles.append(attach(cfg, owner, s["how"], s.get("fail_first", False), own_names if s.get("own_shm") else None))
                     stats["views"] += 1
+                    if s.get("own_shm"):
+                        stats["views_that_own_a_block"] = stats.get("views_that_own_a_block", 0) + 1
             elif op == "drop_view":
                 if len(handles) > 1:
                     idx = 1 + s["via"] % (len(handles) - 1)
@@ -275,9 +285,18 @@ def run_case(case, real_sleep=False):
             owner = h = v = None
             if os.path.exists(shm_path(name)):
                 raise Violation(f"{kind} {cfg}: segment {name} still exists after the owner was dropped", "segment-survives-owner")
+        left = [n for n in own_names if os.path.exists(shm_path(n))]
+        if left:
+            raise Violation(f"{kind} {cfg}: a sketch created with shared_memory=True was attached to another block and dropped, but its own segment {left[0]} still exists", "segment-survives-owner")
     finally:
         handles.clear()
         owner = h = v = None
+        for n in own_names:
+            if os.path.exists(shm_path(n)):
+                try:
+                    os.unlink(shm_path(n))
+                except OSError:
+                    pass
         if os.path.exists(shm_path(name)):
             try:
                 os.unlink(shm_path(name))  # only the segment this case created
@@ -321,9 +340,24 @@ def _shard(arg):
             cl.append("owner_created_by_load")
         if stats.get("merge_own_view"):
             cl.append("merge_of_two_handles_on_one_block")
+        if stats.get("views_that_own_a_block"):
+            cl.append("view_that_owns_a_block_of_its_own")
         rec.case(case, stats["views"] >= 1 and stats["ops_via_view"] >= 1 and (ua or case["cfg"]["kind"] == "hll"), cl)
 
-    common.run_given(test, common.derive_seed(seed, "C16", shard), n_examples, holder, rec, retry=run_case)
+    # __del__ of a sketch that owns one block and is attached to another raises after its own block is gone (the unchanged
+    # library does: "Failed to close existing_shm"); Python reports such exceptions on stderr and ignores them. They are
+    # counted in the evidence instead of printed; no oracle depends on them.
+    import sys
+
+    ignored = []
+    old_hook = sys.unraisablehook
+    sys.unraisablehook = lambda u: ignored.append(type(u.exc_value).__name__)
+    try:
+        common.run_given(test, common.derive_seed(seed, "C16", shard), n_examples, holder, rec, retry=run_case)
+    finally:
+        sys.unraisablehook = old_hook
+    if ignored:
+        rec.count("exceptions_ignored_in___del__", len(ignored))
     return rec
 
 
